@@ -46,6 +46,18 @@ Theorem c08_clean_close_is_silent : forall wf,
   cstep wf PIdle (InRecv RClean) = (PExited, []) /\ cstep wf PIdle (InCmd None) = (PExited, []).
 Proof. intros; split; reflexivity. Qed.
 
+(* ... and when it has left, every responder it held at the start and every request it took from
+   the queue on the way has been answered or dropped (its caller woke with a result); what is still
+   queued is dropped with the loop's State (client/mod.rs: do_send maps that to ConnectionClosed) *)
+Theorem c08_dead_transport_resolves_all : forall r wf s outs tk s',
+  drunso r wf s outs tk s' -> fst s' = PExited ->
+  forall id, In id (holds (fst s) ++ tk) -> answered outs id.
+Proof. exact dead_all_resolved. Qed.
+
+Theorem c08_queue_taken_in_order : forall r wf s outs tk s',
+  drunso r wf s outs tk s' -> exists taken_reqs, snd s = taken_reqs ++ snd s' /\ tk = map q_id taken_reqs.
+Proof. exact drunso_queue. Qed.
+
 Example c08_drain_example :
   let q := fun n => mkReq n [] in
   druns (RErr EIo) false 7 (PWait 1, [q 2; q 3]) (PExited, []).
@@ -59,3 +71,5 @@ Print Assumptions c08_responders_accounted.
 Print Assumptions c08_one_closing_event.
 Print Assumptions c08_dead_transport_exits.
 Print Assumptions c08_always_a_step.
+Print Assumptions c08_dead_transport_resolves_all.
+Print Assumptions c08_queue_taken_in_order.
